@@ -957,3 +957,30 @@ example : |(waveletRow (([3 / 5, 6 / 5, 2 / 5, -1 / 5] : List ℚ).map (fun c =>
     intro t
     rw [show t * (9 / 8) - t = 1 / 8 * t by ring, abs_mul]
     norm_num) _ 4 _ 0
+
+/-- **C17 (what a call that does not work in place returns).** `w(f, inline=False)` for any layout of `f`, and
+`w(f, inline=True)` on an integer array whose axes are in C order (`|s1| ≤ |s0|`): the caller's memory is untouched
+(`C17_inline_memory`) and, when the number of rows is even (ANY number of columns — the fresh copy is C-contiguous, so
+its rows have unit stride), the returned image is the core 2-D model of the image the view shows, at every pixel —
+whatever the strides, offset or sign of the caller's view. -/
+theorem C17_not_inline_result {K : Type} [Field K] (w : Mem.Wrapper) (pe : Bool) (cs : List K) (isFloat inline : Bool)
+    (v : Mem.View) (hfresh : ¬ (inline = true ∧ isFloat = true))
+    (hC : isFloat = true ∨ inline = false ∨ v.s1.natAbs ≤ v.s0.natAbs)
+    (h0 : v.N0 % 2 = 0) (m : Mem.Memory K) (y x : Nat) (hy : y < v.N0) (hx : x < v.N1) :
+    (Mem.wrapMem w pe cs isFloat inline v m).2 y x = Mem.core2 w pe cs v.N0 v.N1 (v.read m) y x := by
+  refine Mem.wrapMem_fresh_core w pe cs isFloat inline v hfresh ?_ h0 m y x hy hx
+  unfold Mem.freshView
+  rw [if_neg]
+  rintro ⟨a, b, c⟩
+  rcases hC with h | h | h
+  · simp [h] at a
+  · simp [h] at b
+  · omega
+
+/-- non-vacuity: `haar(f, inline=False)` on the reversed-rows view of a `2 × 3` buffer (negative row stride, odd number
+of columns): the result is the core model of the viewed image `(10,20,30), (1,2,3)` -/
+example : (List.range 6).map (fun (a : Nat) => (Mem.wrapMem .haar false ([] : List ℚ) true false ⟨3, 2, 3, -3, 1⟩
+      (fun p => ([1, 2, 3, 10, 20, 30] : List ℚ).getD p.toNat 0)).2 (a / 3) (a % 3))
+    = (List.range 6).map (fun (a : Nat) => haar2 false 2 3
+      (fun y x => ([10, 20, 30, 1, 2, 3] : List ℚ).getD (3 * y + x) 0) (a / 3) (a % 3)) := by
+  decide +kernel
